@@ -99,6 +99,14 @@ def same_value(a, b):
     return a == b
 
 
+def _is_num(t):
+    try:
+        float(t)
+        return True
+    except ValueError:
+        return False
+
+
 def _old_version(tok):
     """'patch' / 'minor': the installed version with only its last / middle component changed"""
     if tok not in ("patch", "minor"):
@@ -161,12 +169,17 @@ class SettingsHistory(object):
         toks = [str(t) for t in op["tokens"]]
         before = self.path.read_bytes()
         exp = model_set(self.model, toks)
-        try:
-            main_config.set_config(self.path, toks)
-        except Exception:  # noqa  a refused edit is not a violation as long as nothing was written
-            if self.path.read_bytes() != before:
-                raise Mismatch("set_config raised but the file changed", observed="refused_but_changed", after="set")
-            return
+        if op.get("cli") and not any(t.startswith("-") and not _is_num(t) for t in toks):
+            # the same edit as 'evo_config set <tokens>' (everything after 'set' is handed to set_config)
+            if not toks or not self._evo_config(["set"] + toks, "set"):
+                return
+        else:
+            try:
+                main_config.set_config(self.path, toks)
+            except Exception:  # noqa  a refused edit is not a violation as long as nothing was written
+                if self.path.read_bytes() != before:
+                    raise Mismatch("set_config raised but the file changed", observed="refused_but_changed", after="set")
+                return
         if exp == "refuse":
             # the implementation accepted what the model refuses: judge only the invariants
             data = self.read()
@@ -179,21 +192,32 @@ class SettingsHistory(object):
         self.touched |= named
         self.check("set %s" % toks, touched=named)
 
-    def _reset_cli(self, op):
-        """the same through 'evo_config reset [-y] [params]' (package settings path pointed at this history's file)"""
-        subset = op["subset"]
-        argv = ["reset"] + (["-y"] if op.get("yes") else []) + list(subset or [])
+    def _evo_config(self, argv, after):
+        """evo_config in-process with the package settings path pointed at this history's file; False = refused (file untouched)"""
         before = self.path.read_bytes()
         saved = (evo_settings.DEFAULT_PATH, evo_settings.reset.__defaults__)
         evo_settings.DEFAULT_PATH = self.path
         evo_settings.reset.__defaults__ = (self.path, None)
         try:
-            out = cli.run_config(argv, default_answer="y")
+            try:
+                out = cli.run_config(argv, default_answer="y")
+            except Exception:  # noqa  a refused edit is not a violation as long as nothing was written
+                if self.path.read_bytes() != before:
+                    raise Mismatch("evo_config %s raised but the settings file changed" % " ".join(argv), observed="refused_but_changed", after=after)
+                return False
         finally:
             evo_settings.DEFAULT_PATH, evo_settings.reset.__defaults__ = saved
         if out.exit_code != 0:
             if self.path.read_bytes() != before:
-                raise Mismatch("evo_config %s failed (%s) but changed the settings file" % (" ".join(argv), out.refused), observed="refused_but_changed", after="reset")
+                raise Mismatch("evo_config %s failed (%s) but changed the settings file" % (" ".join(argv), out.refused), observed="refused_but_changed", after=after)
+            return False
+        return True
+
+    def _reset_cli(self, op):
+        """the same through 'evo_config reset [-y] [params]' (package settings path pointed at this history's file)"""
+        subset = op["subset"]
+        argv = ["reset"] + (["-y"] if op.get("yes") else []) + list(subset or [])
+        if not self._evo_config(argv, "reset"):
             return
         if not subset:
             self.model = copy.deepcopy(DEFAULT_SETTINGS_DICT)
@@ -223,7 +247,11 @@ class SettingsHistory(object):
         other = {k: v for k, v in op["other"].items() if k in DEFAULT_SETTINGS_DICT}
         p = Path(self.dir) / "other.json"
         p.write_text(json.dumps(other))
-        main_config.merge_json_union(str(self.path), str(p), op["soft"])
+        if op.get("cli"):
+            if not self._evo_config(["set", "-m", str(p)] + (["--soft"] if op["soft"] else []), "merge"):
+                return
+        else:
+            main_config.merge_json_union(str(self.path), str(p), op["soft"])
         if not op["soft"]:
             for k, v in other.items():
                 self.model[k] = v
@@ -318,10 +346,10 @@ st_token = st.one_of(st_key, st_key, st_numtok, st_word)
 st_other = st.dictionaries(st.sampled_from(KEYS), st.one_of(st.booleans(), st.integers(-5, 500), gen.fl(-10, 10), st.sampled_from(["png", "xy", "abc"]),
                                                             st.lists(st.one_of(st.integers(0, 20), st.sampled_from(["rmse", "max"])), max_size=3)), max_size=4)
 OPS = {
-    "set": st.fixed_dictionaries({"op": st.just("set"), "tokens": st.lists(st_token, min_size=0, max_size=8)}),
+    "set": st.fixed_dictionaries({"op": st.just("set"), "tokens": st.lists(st_token, min_size=0, max_size=8), "cli": st.sampled_from([False, False, True])}),
     "reset": st.fixed_dictionaries({"op": st.just("reset"), "subset": st.one_of(st.none(), st.lists(st.one_of(st.sampled_from(KEYS), st.just("bogus")), max_size=5)),
                                     "cli": st.booleans(), "yes": st.booleans()}),
-    "merge": st.fixed_dictionaries({"op": st.just("merge"), "other": st_other, "soft": st.booleans()}),
+    "merge": st.fixed_dictionaries({"op": st.just("merge"), "other": st_other, "soft": st.booleans(), "cli": st.booleans()}),
     "upgrade": st.fixed_dictionaries({"op": st.just("upgrade"), "removed": st.lists(st.sampled_from(KEYS), max_size=5, unique=True),
                                       "old_version": st.sampled_from(["v1.0.0", "v1.30.0", "", "1.31.0", "patch", "minor", "patch"])}),
     "container": st.fixed_dictionaries({"op": st.just("container"), "unknown": st.sampled_from(["foo", "plot_foo", "__x", "rmse"]), "other": st_other}),
